@@ -298,7 +298,7 @@ class C19(Property):
                     sig = "lock-leak" + leak_sfx   # the leaked _locks entry makes the same thread's next call refuse
                 fails.append(F("B", what + " | case keys %s" % case["keys"], sig))
             if res["status"] == "hang":
-                nested = res["live"] and all(d > 0 for d in res["depth_live"])
+                nested = any(d > 0 for d in res["depth_live"])
                 if leak_sfx:
                     fails.append(F("B", "callers %s wait forever after a getter raised a BaseException inside get_set (write lock never released)" % res["live"],
                                    "lock-leak" + leak_sfx))
